@@ -134,3 +134,8 @@ mod tests {
         assert_eq!(non_zero_prev_power_of_two(usize::MAX), TWO_EXP_63);
     }
 }
+
+#[cfg(kani)]
+mod verif_kani {
+    include!(concat!(env!("IPA_VERIF_DIR"), "/kani/power_of_two.rs"));
+}
